@@ -89,6 +89,9 @@ func NewEventSystem(logger log.Logger, cometWSClient *cmtjrpcclient.WSClient) *E
 // WithContext sets a new context to the EventSystem. This is required to set a timeout context when
 // a new filter is intantiated.
 func (es *EventSystem) WithContext(ctx context.Context) {
+	// requests set the context concurrently while the event loop reads it under the same lock
+	es.indexMux.Lock()
+	defer es.indexMux.Unlock()
 	es.ctx = ctx
 }
 
@@ -192,7 +195,7 @@ func (es *EventSystem) subscribeLogs(crit filters.FilterCriteria) (*Subscription
 }
 
 // SubscribeNewHeads subscribes to new block headers events.
-func (es EventSystem) SubscribeNewHeads() (*Subscription, pubsub.UnsubscribeFunc, error) {
+func (es *EventSystem) SubscribeNewHeads() (*Subscription, pubsub.UnsubscribeFunc, error) {
 	sub := &Subscription{
 		id:        rpc.NewID(),
 		typ:       filters.BlocksSubscription,
@@ -206,7 +209,7 @@ func (es EventSystem) SubscribeNewHeads() (*Subscription, pubsub.UnsubscribeFunc
 }
 
 // SubscribePendingTxs subscribes to new pending transactions events from the mempool.
-func (es EventSystem) SubscribePendingTxs() (*Subscription, pubsub.UnsubscribeFunc, error) {
+func (es *EventSystem) SubscribePendingTxs() (*Subscription, pubsub.UnsubscribeFunc, error) {
 	sub := &Subscription{
 		id:        rpc.NewID(),
 		typ:       filters.PendingTransactionsSubscription,
